@@ -1,4 +1,5 @@
 import TrionModel.Lemmas.Trias
+import TrionModel.Props.C17
 /-!
 # C18 — the file written by `trias` reproduces the assembled image
 
@@ -87,6 +88,30 @@ theorem boot_crc_refuses (m : List Seg) (h0 : (lookup m 0x10000000).isSome)
       simp only [List.any_eq_true]
       exact ⟨i, List.mem_range.mpr hi, by simpa using h⟩
     simp [this]
+
+/-- C18.c' (first clause of `boot_crc`, model level)  When the program occupies 0x10000000 and leaves
+0x100000FC..0x100000FF free, the segment list that is padded and written is the program's with exactly one
+insertion: at 0x100000FC, the four little-endian bytes of the CRC-32/MPEG-2 (the bit-serial specification of
+C17) of the 252 bytes 0x10000000..0x100000FB, absent bytes read as zero (`bootBytes`).
+
+Not proved: the read-back of these four bytes through `image (read f)` (needs the dictionary lemma named in
+`pad_pages_partial`). -/
+theorem boot_crc_partial (m : List Seg) (h0 : (lookup m 0x10000000).isSome)
+    (hfree : ∀ i, i < 4 → lookup m (0x100000FC + i) = none) :
+    bootCrc m = .ok (insertMerge 0x100000FC
+      (le32 (Trion.Crc.Spec.crc ((bootBytes m).map UInt8.toBitVec)).toNat) m) ∧
+    (bootBytes m).length = 252 ∧
+    ∀ i (hi : i < 252), (bootBytes m)[i]? = some ((lookup m (0x10000000 + i)).getD 0) := by
+  refine ⟨?_, by simp [bootBytes], ?_⟩
+  · unfold bootCrc
+    rw [if_pos h0, if_neg]
+    · simp only [crc32, Trion.Crc.crc_eq_spec]
+    · simp only [List.any_eq_true, not_exists, not_and]
+      intro i hi
+      rw [hfree i (List.mem_range.mp hi)]
+      simp
+  · intro i hi
+    simp [bootBytes, hi]
 
 /-- C18.d  An empty image produces no file. -/
 theorem empty_refused : post [] = .error .empty := rfl
